@@ -52,8 +52,22 @@ def _all_monomials(nv, deg):
 
 def _poly_pst13(rng, p, nv, deg, dense_ok=False):
     """sparse multivariate: tokens (coeff k (var pow){k})*, total degree <= deg; mixed monomials"""
-    shape = rng.choice(["mixed", "mixed", "zero", "const", "univariate_sum", "single"] + (["dense", "dense", "mixed", "topdeg"] if dense_ok else []))
+    shape = rng.choice(["mixed", "mixed", "zero", "const", "univariate_sum", "single"] + (["dense", "dense", "mixed", "topdeg"] if dense_ok else [])
+                       + (["powmix", "powmix", "topdeg"] if nv >= 2 and deg >= 3 else []))
     terms = {}
+    if shape == "powmix":       # a repeated variable times a higher-indexed one (x_i^k * x_j ..., k >= 2, i < j), plus a few other terms
+        for _ in range(rng.randint(1, 3)):
+            i = rng.randrange(nv - 1)
+            k = rng.randint(2, deg - 1)
+            exps = {i: k}
+            for _ in range(rng.randint(1, deg - k)):
+                v = rng.randrange(i + 1, nv)
+                exps[v] = exps.get(v, 0) + 1
+            terms[tuple(sorted(exps.items()))] = rf_uniform(rng, p)
+        if rng.random() < 0.5:
+            terms[()] = rf_uniform(rng, p)
+        if rng.random() < 0.5:
+            terms[((rng.randrange(nv), 1),)] = rf_uniform(rng, p)
     if shape == "dense":
         for mon in _all_monomials(nv, deg):
             terms[mon] = rf_uniform(rng, p)
@@ -68,7 +82,7 @@ def _poly_pst13(rng, p, nv, deg, dense_ok=False):
         return [], shape
     if shape == "const":
         terms[()] = rf_uniform(rng, p)
-    elif shape in ("dense", "topdeg"):
+    elif shape in ("dense", "topdeg", "powmix"):
         pass
     else:
         nt = 1 if shape == "single" else rng.randint(1, 6)
@@ -141,12 +155,12 @@ def make_case(rng, cid, scheme, tier, opts=None):
         if opts.get("bounds", True) and rng.random() < 0.6:
             bounds_list = [rng.randint(1, s) for _ in range(rng.randint(1, 2))]
     elif scheme == "pst13":
-        num_vars = rng.randint(1, 4 if big else 3)
-        D = rng.randint(1, 4 if big else 3)
+        num_vars = rng.choice([1, 2, 2, 3, 3, 4] if big else [1, 2, 2, 3, 3])
+        D = rng.choice([1, 2, 3, 3, 4, 4] if big else [1, 2, 3, 3, 4])
         if opts.get("pst_grid"):        # the grid of C15
             num_vars, D = opts["pst_grid"]
         s = rng.randint(1, D)
-        if opts.get("pst_grid") and rng.random() < 0.5:
+        if rng.random() < 0.5:
             s = D
         sh = rng.randint(1, 2)
     elif scheme == "hyrax":
@@ -572,7 +586,12 @@ def make_domain_case(rng, cid, scheme, tier):
             c.set("supported_degree", D + rng.randint(1, 3))
     elif kind == "trim_bound_gt_supported":
         s = int(c.fields["supported_degree"][0])
-        c.set("bounds", [s + rng.randint(1, 3)] + ([rng.randint(1, s)] if rng.random() < 0.5 else []))
+        if s >= D and D >= 2 and rng.random() < 0.7:      # leave room between the supported and the maximum degree
+            s = rng.randint(1, D - 1)
+            c.set("supported_degree", s)
+        # mostly a bound the parameters could serve (supported < bound <= max), sometimes one beyond them
+        hi = rng.randint(s + 1, D) if s < D and rng.random() < 0.75 else s + rng.randint(1, 3)
+        c.set("bounds", [hi] + ([rng.randint(1, s)] if rng.random() < 0.5 else []))
     elif kind == "trim_hiding_gt_max":
         c.set("supported_hiding", D + rng.randint(1, 3))
     c.meta["in_domain"] = False
